@@ -1058,6 +1058,83 @@ def judgeC05 (ops : List OpRec) : List String :=
     { s with cluster := c' }) ({} : JSt)
   s.out
 
+/-! ### C06 -/
+
+structure J06 where
+  cluster : Cluster := {}
+  /-- specification view: node id ↦ latest advertised address -/
+  hosts : List (Int × Bytes) := []
+  /-- topic ↦ leader node id per partition, from the latest response mentioning the topic -/
+  topics : List (Bytes × List Int) := []
+  bootstrap : List Bytes := []
+  out : List String := []
+
+def J06.hostOfNode (s : J06) (n : Int) : Option Bytes := (s.hosts.find? (·.1 == n)).map (·.2)
+
+def J06.view (s : J06) : String :=
+  let ts := sortBy (fun (a b : Bytes × List Int) => bytesLt a.1 b.1) s.topics
+  "ok" ++ String.join (ts.map fun (tp : Bytes × List Int) =>
+    " " ++ toHexTok tp.1 ++ "=" ++ joinWith "," ((List.range tp.2.length).zip tp.2 |>.map fun (x : Nat × Int) =>
+      match s.hostOfNode x.2 with
+      | some h => s!"{x.1}:{x.2}@{toHexTok h}"
+      | none => s!"{x.1}:~"))
+
+/-- merge one metadata response into the view -/
+def J06.merge (s : J06) (brokers : List BrokerMeta) (tms : List TopicMeta) : J06 :=
+  let hosts := brokers.foldl (fun (m : List (Int × Bytes)) (b : BrokerMeta) => (m.filter fun (x : Int × Bytes) => x.1 != b.nodeId) ++ [(b.nodeId, hostOf b)]) s.hosts
+  let topics := tms.foldl (fun (m : List (Bytes × List Int)) (t : TopicMeta) =>
+    -- partition ids of a well-formed response are 0..n-1 in some order: place each leader at its id
+    let n := t.parts.length
+    let leaders : List Int := (List.range n).map fun (i : Nat) =>
+      match t.parts.reverse.find? (fun (p : PartMeta) => p.id == (i : Int)) with
+      | some p => p.leader
+      | none => -1
+    (m.filter fun (x : Bytes × List Int) => x.1 != t.name) ++ [(t.name, leaders)]) s.topics
+  { s with hosts := hosts, topics := topics }
+
+def judgeC06 (ops : List OpRec) : List String :=
+  let v (s : J06) (sig : String) (op : OpRec) (d : String) : J06 :=
+    { s with out := s.out ++ [s!"{sig} | op {op.idx} `{" ".intercalate (op.toks.take 2)}`: {d}"] }
+  let s := ops.foldl (fun (s : J06) op =>
+    let s := { s with cluster := applySetup s.cluster op.setup }
+    let (c', bodies) := truthBodies s.cluster op
+    let s := { s with cluster := c' }
+    let okRes := !op.result.startsWith "err" && op.result != "panic"
+    match op.toks with
+    | ["client_new", hs] => { s with bootstrap := (hostsOf hs).getD [], hosts := [], topics := [] }
+    | [_, "reset_metadata"] => { s with hosts := [], topics := [] }
+    | _ :: load :: _ =>
+      if load == "load_metadata_all" || load == "load_metadata" then
+        let s := if load == "load_metadata_all" then { s with hosts := [], topics := [] } else s
+        -- bootstrap: the first host that can be reached answers; no-host-reachable only if none can
+        let connects : List (Bytes × Bool) := op.evs.filterMap fun (e : Ev) => match e with | .connect h ok => some (h, ok) | _ => none
+        let reachable := s.bootstrap.filter fun (h : Bytes) => !(connects.any fun (x : Bytes × Bool) => x.1 == h && !x.2)
+        let asked : List Bytes := (framesOf op).map fun (x : Bytes × Request) => x.1
+        let s := match s.bootstrap.find? (fun (h : Bytes) => !(connects.any fun (x : Bytes × Bool) => x.1 == h && !x.2)) with
+          | some first =>
+            let s := if asked == [first] then s else v s "C06-bootstrap-order" op s!"metadata asked of {asked.map toHexTok}, first reachable bootstrap host is {toHexTok first}"
+            if op.result == "err NoHost" then v s "C06-no-host-although-reachable" op s!"reachable: {reachable.map toHexTok}" else s
+          | none => if op.result == "err NoHost" then s else v s "C06-no-host-not-reported" op s!"result `{op.result}`"
+        if okRes then
+          bodies.foldl (fun (s : J06) (x : Bytes × Request × RespBody) => match x.2.2 with
+            | RespBody.metadata bs ts => s.merge bs ts
+            | _ => s) s
+        else s
+      else if load == "topics" then
+        if op.result == s.view then s else v s "C06-view" op s!"topics() shows `{op.result}`, the merge of the responses received is `{s.view}`"
+      else if load == "fetch_messages" || load == "fetch_offsets" || load == "list_offsets" || load == "produce" then
+        -- every partition mentioned in a request goes to the latest address of its leader, leaderless ones to nobody
+        (framesOf op).foldl (fun (s : J06) (x : Bytes × Request) =>
+          (mentionsOf x.2).foldl (fun (s : J06) (tp : Bytes × Int) =>
+            let leader : Option Int := ((s.topics.find? (fun (y : Bytes × List Int) => y.1 == tp.1)).bind fun (y : Bytes × List Int) =>
+              if tp.2 < 0 then none else y.2[tp.2.toNat]?)
+            match leader.bind s.hostOfNode with
+            | some h => if h == x.1 then s else v s "C06-misrouted" op s!"{toHexTok tp.1}/{tp.2} sent to {toHexTok x.1}, its leader's latest address is {toHexTok h}"
+            | none => v s "C06-sent-to-leaderless" op s!"{toHexTok tp.1}/{tp.2} has no leader in the merged metadata but was sent to {toHexTok x.1}") s) s
+      else s
+    | _ => s) ({} : J06)
+  s.out
+
 def judge (prop : String) (lines : List String) : List String :=
   let ops := parseOps lines
   match prop with
@@ -1072,6 +1149,7 @@ def judge (prop : String) (lines : List String) : List String :=
   | "C07" => judgeC07 ops
   | "C19" => judgeC19 ops
   | "C05" => judgeC05 ops
+  | "C06" => judgeC06 ops
   | _ => []
 
 end Kafka.Judge
